@@ -244,6 +244,7 @@ func (w *World) CurPath() uint64 {
 func (w *World) Tasks() []*Task { return w.tasks }
 
 // Point parks the calling task with op and returns the fired alternative.
+//
 //go:noinline
 func Point(op *Op) int {
 	w := W
@@ -380,6 +381,7 @@ func (w *World) fireTimer(tm *timer) {
 }
 
 // ClockTouch is called by timer callbacks to declare objects they write.
+//
 //go:noinline
 func (w *World) ClockTouch(p unsafe.Pointer) {
 	if w.inClock {
@@ -483,7 +485,10 @@ func (w *World) Run() {
 			w.Deadlock = true
 			return
 		}
-		if tm != nil && w.TimerChoices && !(w.Horizon > 0 && tm.when > w.Horizon) {
+		// A timer may overtake runnable tasks only when it is due at the current
+		// instant: tasks run in zero virtual time, so the only real nondeterminism
+		// is the order of events that fall on the same instant.
+		if tm != nil && w.TimerChoices && tm.when <= w.Now {
 			en = append(en, Choice{T: -1, Timer: true})
 		}
 		if len(w.Points) >= len(w.prefix) && w.StopAt != nil && w.StopAt(w) {
@@ -728,6 +733,7 @@ func (w *World) SilentEvent(reads, writes []unsafe.Pointer) {
 
 // BlockOn parks until cond holds, then runs act atomically. obj is the
 // happens-before object written by the operation.
+//
 //go:noinline
 func BlockOn(obj unsafe.Pointer, desc string, cond func() bool, act func()) {
 	Point(&Op{Desc: desc, Ready: func() []int {
